@@ -61,6 +61,11 @@ def allowed_np(k, m, N):
   mn = np.where(both, np.minimum(a, b), np.where(dn, a, b))
   mn = np.where(m == 0, 0, mn)
   amb = np.where(m == 0, 0, both.astype(np.int64))
+  # exact bucket (N divides m): exactly round-half-even, no window
+  rhe = sg * (lo + (fr2 > ms) + ((fr2 == ms) & (lo % 2 == 1)))
+  ex = (m > 0) & (ms % N == 0)
+  mn = np.where(ex, rhe, mn)
+  amb = np.where(ex, 0, amb)
   return mn, amb
 
 
